@@ -783,3 +783,789 @@ def gen_accessors(c):
             f.write(text)
         os.replace(tmp, path)
     return [("RtcVerif.Gen.Accessors", "RtcVerif.Gen", THEOREMS)]
+
+
+# =============================================================================================
+# state_at (whole), the first half of __states_times_in, states_in, the de-scaling of extract_results
+# -> lean/RtcVerif/Gen/StateAt.lean   (gen_state_at)
+#
+# Second table "Python construct -> model term" (path-by-path symbolic execution: every symbolic `if` / dictionary
+# lookup forks and the REST of the method is executed in both branches; flags such as `found` stay concrete).
+# Anything else is REJECTED.
+#
+#   state_at(self, variable, t, ensemble_member=0, scaled=False, extrapolate=True)
+#     if isinstance(variable, ca.MX): variable = variable.name()        no effect (a name is a name)
+#     if self.__variable_sizes.get(variable, 1) > 1: raise ...          not taken (vector variables are out of scope)
+#     name = "...".format(...); if extrapolate: name += ..;  try: return self.__symbol_cache[name] / except KeyError: B
+#                                                       B, provided the statements building `name` mention all of
+#                                                       variable, t, ensemble_member, scaled, extrapolate (memoisation
+#                                                       of a pure function under a key naming all its arguments);
+#                                                       `self.__symbol_cache[name] = sym` no effect
+#     self.initial_time                                 p.t0
+#     self.solver_input                                 X
+#     self.alias_relation.canonical_signed(variable)    (canonical, sign): sign < 0 / sign == -1  <->  (p.canon name).2
+#     try: inds = self.__indices[m][canonical] / except KeyError: H / else: B
+#                                                       match p.svars.lookup (p.canon name).1 with | some v => B | none => H
+#     self.integrate_states                             False (single shooting is out of the model's scope)
+#     self.times(canonical) | self.variable_nominal(canonical) | X[inds] | self.interpolation_method(canonical)
+#                                                       v.times | v.nominal | v.xs | v.mode
+#     self.history(m); try: hts = history[canonical] / except KeyError: H / else: B
+#                                                       match v.hist with | some h => B | none => H
+#     self.constant_inputs(m); try: ci = constant_inputs[variable] ...   match p.cins.lookup (p.canon name).1 with ..; the
+#                                                       AliasDict hands out the series `if neg then negKnots ci.series else
+#                                                       ci.series` (C13); self.interpolation_method(variable) = ci.mode
+#     self.parameters(m); try: sym = parameters[variable] ...            match p.pars.lookup (p.canon name).1 with
+#                                                       | some q => sgn neg * q (AliasDict, C13)
+#     np.nan                                            NaN (a fill: nanFill; a value: Res.nan)
+#     ts.values[0] / ts.values[-1] / L[0] / L[-1]       firstVal / lastVal of the series, headD 0 / getLast?.getD 0
+#     self.interpolate(t, ts.times, ts.values, fl, fr, mode)             ofOut (interpScalar mode ks fl fr t)  (C19)
+#     interpolate(times, values, [t], False, mode)      ofOut (interpSym mode (times.zip values) t)   (casadi_helpers, C19)
+#     s * c, c * s, s *= c, s /= c, s *= -1 (s a value) Res.scale c s, Res.divBy c s, Res.neg s (NaN stays NaN)
+#     == != < <= > >=, and / or / not                   decide (..), && || !
+#     raise <anything>                                  Res.raise ;  return sym  the value
+#
+#   __states_times_in up to the statement `(indices,) = np.where(...)`  (result: Option (a, b, hist, state))
+#     if t0 is None: t0 = times[0]                      a?.getD (times.headD 0)   (tf: getLast?.getD 0)
+#     self.state_vector(canonical, m)                   let v <- p.svars.lookup (p.canon name).1 (KeyError = none); v.xs
+#     state *= c (CasADi value)                         state.map (· * c)
+#     raise                                             none
+#     ts.times[:-1] / ts.values[:-1]                    ((h.map fst).dropLast) / ((h.map snd).dropLast): VIEWS on stored data
+#     history = -history                                a new list  (L.map (- ·))
+#     history *= -1 (augmented assignment on a view)    REJECTED (mutates the stored history: finding F13)
+#     np.empty(0)                                       []
+#   states_in
+#     x, _ = self.__states_times_in(variable, t0, tf, ensemble_member); return x      (statesTimesIn ..).map (·.map (·.2))
+#
+#   extract_controls / extract_states / constant-input loop of extract_states
+#     X = self.solver_output.copy(); indices = self.__indices[m]; inds = indices[variable]; X[inds]     v.xs
+#     if variable in results: continue                  no effect (integrated states only)
+#     if variable_size > 1: .. else: B                  B (scalar variables)
+#     results[variable] = e                             the extracted result of `variable` (the last write wins)
+#     self.variable_nominal(variable) * e               vscale v.nominal e
+#     self.interpolate(self.times(variable), ci.times, ci.values, ci.values[0], ci.values[-1], self.interpolation_method(variable))
+#                                                       interpArray ci.mode ci.series (finFill first) (finFill last) ts
+
+
+class Leaf:
+    def __init__(self, text):
+        self.text = text
+
+
+class Fork:
+    def __init__(self, kind, head, a, b):
+        self.kind, self.head, self.a, self.b = kind, head, a, b  # kind: "if" | "match"
+
+
+def _emit(tree, ind):
+    pad = "  " * ind
+    if isinstance(tree, Leaf):
+        return pad + tree.text
+    if tree.kind == "if":
+        return (pad + "(if %s then\n" % tree.head + _emit(tree.a, ind + 1) + "\n" + pad + "else\n"
+                + _emit(tree.b, ind + 1) + ")")
+    scrut, binder = tree.head
+    return (pad + "(match %s with\n" % scrut + pad + "| some %s =>\n" % binder + _emit(tree.a, ind + 1) + "\n"
+            + pad + "| none =>\n" + _emit(tree.b, ind + 1) + ")")
+
+
+NEG = "(p.canon name).2"
+CAN = "(p.canon name).1"
+
+
+class Paths:
+    """path-by-path symbolic execution of one method against the second table"""
+
+    def __init__(self, mode):
+        self.mode = mode  # "state_at" | "prefix"
+        self.nfork = 0
+
+    # ---------------------------------------------------------------- expressions
+    def ev(self, node, env):
+        if isinstance(node, ast.Constant):
+            if isinstance(node.value, bool):
+                return V("cbool", node.value)
+            if node.value is None:
+                return V("none")
+            if isinstance(node.value, (int, float)):
+                return V("rat", _lit(node.value), lit=node.value)
+            raise TranslationError("constant not in the table: `%s`" % _dump(node))
+        if isinstance(node, ast.Name):
+            if node.id not in env:
+                raise TranslationError("unknown name `%s`" % node.id)
+            return env[node.id]
+        if isinstance(node, ast.UnaryOp) and isinstance(node.op, ast.USub):
+            a = self.ev(node.operand, env)
+            if a.kind == "rat":
+                if "lit" in a.kw:
+                    return V("rat", _lit(-a.kw["lit"]) if a.kw["lit"] <= 0 else "(-%s)" % a.term, lit=-a.kw["lit"])
+                return V("rat", "(-%s)" % a.term)
+            if a.kind == "list":
+                return V("list", "(%s.map (- ·))" % a.term)
+            if a.kind == "res":
+                return V("res", "(Res.neg %s)" % a.term)
+            if a.kind == "nan":
+                return a
+            raise TranslationError("negation not in the table: `%s`" % _dump(node))
+        if isinstance(node, ast.UnaryOp) and isinstance(node.op, ast.Not):
+            return self.bnot(self.ev(node.operand, env))
+        if isinstance(node, ast.BoolOp):
+            is_and = isinstance(node.op, ast.And)
+            acc = self.ev(node.values[0], env)
+            for nv in node.values[1:]:
+                if acc.kind == "cbool" and acc.term != is_and:
+                    return acc  # short circuit: the other operand is not evaluated
+                v = self.ev(nv, env)
+                acc = self.band(acc, v) if is_and else self.bor(acc, v)
+            return acc
+        if isinstance(node, ast.Compare) and len(node.ops) == 1:
+            return self.compare(node, env)
+        if isinstance(node, ast.BinOp) and type(node.op) in BIN:
+            return self.arith(type(node.op), self.ev(node.left, env), self.ev(node.right, env), node)
+        if isinstance(node, ast.Attribute):
+            return self.attribute(node, env)
+        if isinstance(node, ast.Subscript):
+            return self.subscript(node, env)
+        if isinstance(node, ast.Call):
+            return self.call(node, env)
+        if isinstance(node, ast.Tuple):
+            return V("tuple", None, elts=[self.ev(e, env) for e in node.elts])
+        if isinstance(node, ast.List) and len(node.elts) == 1:
+            return V("single", None, elt=self.ev(node.elts[0], env))
+        raise TranslationError("expression not in the table: `%s`" % _dump(node))
+
+    def bnot(self, a):
+        if a.kind == "cbool":
+            return V("cbool", not a.term)
+        if a.kind == "bool":
+            return V("bool", "(!%s)" % a.term)
+        raise TranslationError("`not` on something that is not a condition")
+
+    def band(self, a, b):
+        if a.kind == "cbool":
+            return b if a.term else a
+        if b.kind == "cbool":
+            return a if b.term else b
+        if a.kind == b.kind == "bool":
+            return V("bool", "(%s && %s)" % (a.term, b.term))
+        raise TranslationError("`and` on something that is not a condition")
+
+    def bor(self, a, b):
+        if a.kind == "cbool":
+            return a if a.term else b
+        if b.kind == "cbool":
+            return b if b.term else a
+        if a.kind == b.kind == "bool":
+            return V("bool", "(%s || %s)" % (a.term, b.term))
+        raise TranslationError("`or` on something that is not a condition")
+
+    def compare(self, node, env):
+        op = type(node.ops[0])
+        a, b = self.ev(node.left, env), self.ev(node.comparators[0], env)
+        if op in (ast.Is, ast.IsNot) and b.kind == "none" and a.kind in ("optrat", "rat"):
+            if a.kind == "rat":
+                return V("cbool", op is ast.IsNot)
+            return V("isnone" if op is ast.Is else "issome", a.term, var=a.kw["var"])
+        if op not in CMP:
+            raise TranslationError("comparison not in the table: `%s`" % _dump(node))
+        if a.kind == "sign" or b.kind == "sign":
+            s, o = (a, b) if a.kind == "sign" else (b, a)
+            if o.kind != "rat" or "lit" not in o.kw:
+                raise TranslationError("sign compared with a non-literal: `%s`" % _dump(node))
+            if a.kind != "sign":  # literal on the left: mirror
+                op = {ast.Lt: ast.Gt, ast.Gt: ast.Lt, ast.LtE: ast.GtE, ast.GtE: ast.LtE}.get(op, op)
+            holds = {ast.Eq: lambda x, c: x == c, ast.NotEq: lambda x, c: x != c, ast.Lt: lambda x, c: x < c,
+                     ast.LtE: lambda x, c: x <= c, ast.Gt: lambda x, c: x > c, ast.GtE: lambda x, c: x >= c}[op]
+            at_neg, at_pos = holds(-1, o.kw["lit"]), holds(1, o.kw["lit"])
+            if at_neg and not at_pos:
+                return V("bool", NEG)
+            if at_pos and not at_neg:
+                return V("bool", "(!%s)" % NEG)
+            return V("cbool", at_neg)
+        if a.kind == "rat" and b.kind == "rat":
+            if "lit" in a.kw and "lit" not in b.kw:  # literal on the left: mirrored (`1 != c` is `c != 1`)
+                a, b = b, a
+                op = {ast.Lt: ast.Gt, ast.Gt: ast.Lt, ast.LtE: ast.GtE, ast.GtE: ast.LtE}.get(op, op)
+            return V("bool", "decide (%s %s %s)" % (a.term, CMP[op], b.term))
+        raise TranslationError("comparison not in the table: `%s`" % _dump(node))
+
+    def arith(self, op, a, b, node):
+        if a.kind == "nan" or b.kind == "nan":
+            if {a.kind, b.kind} <= {"nan", "rat"}:
+                return V("nan")
+        if a.kind == "rat" and b.kind == "rat":
+            return V("rat", "(%s %s %s)" % (a.term, BIN[op], b.term))
+        if a.kind == "sign" or b.kind == "sign":
+            raise TranslationError("arithmetic with the alias sign is not in the table: `%s`" % _dump(node))
+        if op is ast.Mult and {a.kind, b.kind} == {"res", "rat"}:
+            r, c = (a, b) if a.kind == "res" else (b, a)
+            if c.kw.get("lit") == -1:
+                return V("res", "(Res.neg %s)" % r.term)
+            return V("res", "(Res.scale %s %s)" % (c.term, r.term))
+        if op is ast.Div and a.kind == "res" and b.kind == "rat":
+            return V("res", "(Res.divBy %s %s)" % (b.term, a.term))
+        if op is ast.Mult and {a.kind, b.kind} == {"list", "rat"}:
+            l, c = (a, b) if a.kind == "list" else (b, a)
+            return V("list", "(%s.map (· * %s))" % (l.term, c.term))
+        raise TranslationError("arithmetic not in the table: `%s`" % _dump(node))
+
+    def attribute(self, node, env):
+        if _self_attr(node, "initial_time"):
+            return V("rat", "p.t0")
+        if _self_attr(node, "solver_input"):
+            return V("mark:X")
+        if _self_attr(node, "integrate_states"):
+            return V("cbool", False)
+        if _self_attr(node, "__indices"):
+            return V("mark:indices")
+        if _self_attr(node, "__integrators"):
+            return V("mark:integrators")
+        if isinstance(node.value, ast.Name) and node.value.id == "np" and node.attr == "nan":
+            return V("nan")
+        base = self.ev(node.value, env)
+        if base.kind == "ts" and node.attr in ("times", "values"):
+            return V("ts" + node.attr, None, ks=base.term)
+        raise TranslationError("attribute not in the table: `%s`" % _dump(node))
+
+    def subscript(self, node, env):
+        base = self.ev(node.value, env)
+        sl = node.slice
+        if isinstance(sl, ast.Slice):
+            if (sl.lower is None and sl.step is None and isinstance(sl.upper, ast.UnaryOp)
+                    and isinstance(sl.upper.op, ast.USub) and isinstance(sl.upper.operand, ast.Constant)
+                    and sl.upper.operand.value == 1 and base.kind in ("tstimes", "tsvalues")):
+                proj = "·.1" if base.kind == "tstimes" else "·.2"
+                return V("list", "((%s.map (%s)).dropLast)" % (base.kw["ks"], proj), view=True)
+            raise TranslationError("slice not in the table: `%s`" % _dump(node))
+        idx = self.ev(sl, env)
+        if base.kind == "mark:indices" and idx.kind == "mark:member":
+            return V("mark:indices_m")
+        if base.kind == "mark:indices_m":
+            if idx.kind == "mark:canonical":
+                return V("lookup", "p.svars.lookup %s" % CAN, binder="v", result=V("mark:inds"))
+            raise TranslationError("decision-vector lookup with another key than the canonical name: `%s`" % _dump(node))
+        if base.kind == "mark:X" and idx.kind == "mark:inds":
+            return V("list", "v.xs")
+        if base.kind == "mark:histdict":
+            if idx.kind == "mark:canonical":
+                return V("lookup", "v.hist", binder="h", result=V("ts", "h"))
+            raise TranslationError("history looked up with another key than the canonical name: `%s`" % _dump(node))
+        if base.kind == "mark:cindict":
+            if idx.kind == "name":
+                return V("lookup", "p.cins.lookup %s" % CAN, binder="ci",
+                         result=V("ts", "(if %s then negKnots ci.series else ci.series)" % NEG, cin=True))
+            raise TranslationError("constant input looked up with another key than `variable`: `%s`" % _dump(node))
+        if base.kind == "mark:pardict":
+            if idx.kind == "name":
+                return V("lookup", "p.pars.lookup %s" % CAN, binder="q", result=V("rat", "(sgn %s * q)" % NEG))
+            raise TranslationError("parameter looked up with another key than `variable`: `%s`" % _dump(node))
+        if idx.kind == "rat" and idx.kw.get("lit") in (0, -1):
+            first = idx.kw["lit"] == 0
+            if base.kind == "tsvalues":
+                return V("rat", "(%s %s)" % ("firstVal" if first else "lastVal", base.kw["ks"]))
+            if base.kind == "list":
+                return V("rat", "(%s.headD 0)" % base.term if first else "((%s.getLast?).getD 0)" % base.term)
+        raise TranslationError("subscript not in the table: `%s`" % _dump(node))
+
+    def fill(self, v):
+        if v.kind == "nan":
+            return "nanFill"
+        if v.kind == "rat":
+            return "(finFill %s)" % v.term
+        raise TranslationError("fill value not in the table")
+
+    def call(self, node, env):
+        f = node.func
+        args = node.args
+        kinds = lambda: [self.ev(a, env) for a in args]  # noqa
+        if _self_attr(f, "times") and len(args) == 1 and not node.keywords:
+            k = self.ev(args[0], env).kind
+            if k == "mark:canonical" and self.mode == "state_at":
+                return V("list", "v.times")
+            if k == "name":
+                return V("list", "(p.timesOf name)")
+        if _self_attr(f, "variable_nominal") and len(args) == 1 and self.ev(args[0], env).kind == "mark:canonical":
+            return V("rat", "v.nominal")
+        if _self_attr(f, "interpolation_method") and len(args) == 1:
+            k = self.ev(args[0], env).kind
+            if k == "mark:canonical":
+                return V("mode", "v.mode")
+            if k == "name":
+                return V("mode", "ci.mode", cin=True)
+        if _self_attr(f, "history") and len(args) == 1 and self.ev(args[0], env).kind == "mark:member":
+            return V("mark:histdict")
+        if _self_attr(f, "constant_inputs") and len(args) == 1 and self.ev(args[0], env).kind == "mark:member":
+            return V("mark:cindict")
+        if _self_attr(f, "parameters") and len(args) == 1 and self.ev(args[0], env).kind == "mark:member":
+            return V("mark:pardict")
+        if _self_attr(f, "state_vector") and len(args) == 2 and not node.keywords:
+            a, b = kinds()
+            if a.kind == "mark:canonical" and b.kind == "mark:member":
+                return V("lookup", "p.svars.lookup %s" % CAN, binder="v", result=V("list", "v.xs"), raises=True)
+        if _self_attr(f, "interpolate") and len(args) == 6 and not node.keywords:
+            t, ts, vs, fl, fr, md = kinds()
+            if (t.kind == "rat" and ts.kind == "tstimes" and vs.kind == "tsvalues" and ts.kw["ks"] == vs.kw["ks"]
+                    and md.kind == "mode"):
+                cin = "ci." in ts.kw["ks"]
+                if cin != bool(md.kw.get("cin")):
+                    raise TranslationError("interpolation method of another variable: `%s`" % _dump(node))
+                return V("res", "(ofOut (interpScalar %s %s %s %s %s))" % (md.term, ts.kw["ks"], self.fill(fl), self.fill(fr), t.term))
+        if isinstance(f, ast.Name) and f.id == "interpolate" and len(args) == 5 and not node.keywords:
+            ts, vs, q, eq, md = kinds()
+            if (ts.kind == "list" and vs.kind == "list" and q.kind == "single" and q.kw["elt"].kind == "rat"
+                    and eq.kind == "cbool" and eq.term is False and md.kind == "mode" and not md.kw.get("cin")):
+                return V("res", "(ofOut (interpSym %s (%s.zip %s) %s))" % (md.term, ts.term, vs.term, q.kw["elt"].term))
+        if _dump(f) == "np.empty" and len(args) == 1 and isinstance(args[0], ast.Constant) and args[0].value == 0:
+            return V("list", "([] : List Rat)")
+        if _dump(f) == "self.alias_relation.canonical_signed" and len(args) == 1 and self.ev(args[0], env).kind == "name":
+            return V("tuple", None, elts=[V("mark:canonical"), V("sign")])
+        raise TranslationError("call not in the table: `%s`" % _dump(node))
+
+    # ---------------------------------------------------------------- statements
+    def leaf_return(self, v):
+        if self.mode == "state_at":
+            if v.kind == "rat":
+                return Leaf(".num %s" % v.term)
+            if v.kind == "res":
+                return Leaf(v.term)
+            if v.kind == "nan":
+                return Leaf(".nan")
+        raise TranslationError("returned value not in the table")
+
+    def leaf_raise(self):
+        return Leaf(".raise" if self.mode == "state_at" else "none")
+
+    def fork(self, cond, then_stmts, else_stmts, rest, env):
+        """continue with `then_stmts + rest` / `else_stmts + rest` according to the condition"""
+        if cond.kind == "cbool":
+            return self.run(list(then_stmts if cond.term else else_stmts) + rest, env)
+        self.nfork += 1
+        if self.nfork > 400:
+            raise TranslationError("too many paths")
+        if cond.kind == "bool":
+            return Fork("if", cond.term, self.run(list(then_stmts) + rest, dict(env)), self.run(list(else_stmts) + rest, dict(env)))
+        if cond.kind in ("isnone", "issome"):
+            var = cond.kw["var"]
+            e_some, e_none = dict(env), dict(env)
+            e_some[var] = V("rat", var + "_v")
+            some = self.run(list(else_stmts if cond.kind == "isnone" else then_stmts) + rest, e_some)
+            e_none[var] = V("none")
+            none = self.run(list(then_stmts if cond.kind == "isnone" else else_stmts) + rest, e_none)
+            return Fork("match", (cond.term, var + "_v"), some, none)
+        raise TranslationError("condition not in the table")
+
+    def assign(self, target, v, env):
+        if isinstance(target, ast.Name):
+            env[target.id] = v
+            return
+        if isinstance(target, ast.Tuple) and v.kind == "tuple" and len(target.elts) == len(v.kw["elts"]):
+            for t, e in zip(target.elts, v.kw["elts"]):
+                self.assign(t, e, env)
+            return
+        raise TranslationError("assignment target not in the table: `%s`" % _dump(target))
+
+    def run(self, stmts, env):
+        stmts = list(stmts)
+        while stmts:
+            st = stmts.pop(0)
+            if isinstance(st, ast.Pass) or (isinstance(st, ast.Expr) and isinstance(st.value, ast.Constant)):
+                continue
+            if isinstance(st, ast.Return):
+                if st.value is None:
+                    raise TranslationError("bare return")
+                return self.leaf_return(self.ev(st.value, env))
+            if isinstance(st, ast.Raise):
+                return self.leaf_raise()
+            if self.mode == "prefix" and isinstance(st, ast.Assign) and isinstance(st.value, ast.Call) \
+                    and _dump(st.value.func) == "np.where":
+                return self.prefix_leaf(env)
+            if isinstance(st, ast.Assign) and len(st.targets) == 1:
+                tgt = st.targets[0]
+                if isinstance(tgt, ast.Subscript) and _self_attr(tgt.value, "__symbol_cache"):
+                    continue  # memoisation store
+                v = self.ev(st.value, env)
+                if v.kind == "lookup":
+                    if not v.kw.get("raises"):
+                        raise TranslationError("dictionary lookup outside try/except: `%s`" % _dump(st))
+                    e2 = dict(env)
+                    self.assign(tgt, v.kw["result"], e2)
+                    self.nfork += 1
+                    return Fork("match", (v.term, v.kw["binder"]), self.run(stmts, e2), self.leaf_raise())
+                self.assign(tgt, v, env)
+                continue
+            if isinstance(st, ast.AugAssign) and isinstance(st.target, ast.Name) and type(st.op) in BIN:
+                cur = self.ev(st.target, env)
+                if cur.kw.get("view"):
+                    raise TranslationError("in-place update of `%s`, a view on stored data (`%s`)" % (st.target.id, _dump(st)))
+                env[st.target.id] = self.arith(type(st.op), cur, self.ev(st.value, env), st)
+                continue
+            if isinstance(st, ast.If):
+                if self.no_effect_if(st, env):
+                    continue
+                return self.fork(self.ev(st.test, env), st.body, st.orelse, stmts, env)
+            if isinstance(st, ast.Try):
+                return self.try_(st, stmts, env)
+            raise TranslationError("statement not in the table: `%s`" % _dump(st))
+        raise TranslationError("the method can end without return")
+
+    def no_effect_if(self, st, env):
+        d = _dump(st.test, 200)
+        if d == "isinstance(variable, ca.MX)" and len(st.body) == 1 and _dump(st.body[0]) == "variable = variable.name()" \
+                and not st.orelse:
+            return True
+        if d == "self.__variable_sizes.get(variable, 1) > 1" and len(st.body) == 1 and isinstance(st.body[0], ast.Raise) \
+                and not st.orelse:
+            return True
+        return False
+
+    def try_(self, st, rest, env):
+        if not (len(st.handlers) == 1 and isinstance(st.handlers[0].type, ast.Name) and st.handlers[0].type.id == "KeyError"
+                and not st.finalbody and st.body):
+            raise TranslationError("try statement not in the table: `%s`" % _dump(st))
+        first = st.body[0]
+        # memoisation: try: return self.__symbol_cache[name] / except KeyError: <body>
+        if (isinstance(first, ast.Return) and isinstance(first.value, ast.Subscript)
+                and _self_attr(first.value.value, "__symbol_cache") and len(st.body) == 1 and not st.orelse):
+            key = first.value.slice
+            if not (isinstance(key, ast.Name) and env.get(key.id) is not None and env[key.id].kind == "key"):
+                raise TranslationError("symbol cache read with something else than the key built before")
+            missing = {"variable", "t", "ensemble_member", "scaled", "extrapolate"} - env[key.id].kw["names"]
+            if missing:
+                raise TranslationError("symbol-cache key does not depend on %s" % ", ".join(sorted(missing)))
+            return self.run(list(st.handlers[0].body) + rest, env)
+        if not (isinstance(first, ast.Assign) and len(first.targets) == 1):
+            raise TranslationError("try block does not start with a lookup: `%s`" % _dump(first))
+        v = self.ev(first.value, env)
+        if v.kind != "lookup":
+            raise TranslationError("try block does not start with a dictionary lookup: `%s`" % _dump(first))
+        for s in st.body[1:]:
+            if not (isinstance(s, ast.Assign) and isinstance(s.value, (ast.Constant, ast.Name))):
+                raise TranslationError("statement after the lookup inside `try` is not a plain assignment: `%s`" % _dump(s))
+        e_some, e_none = dict(env), dict(env)
+        self.assign(first.targets[0], v.kw["result"], e_some)
+        self.nfork += 1
+        some = self.run(list(st.body[1:]) + list(st.orelse) + rest, e_some)
+        none = self.run(list(st.handlers[0].body) + rest, e_none)
+        return Fork("match", (v.term, v.kw["binder"]), some, none)
+
+    def prefix_leaf(self, env):
+        need = {}
+        for nme, kind in (("t0", "rat"), ("tf", "rat"), ("history_times", "list"), ("history", "list"),
+                          ("times", "list"), ("state", "list")):
+            v = env.get(nme)
+            if v is None or v.kind != kind:
+                raise TranslationError("`%s` is not a %s at the window selection" % (nme, kind))
+            need[nme] = v.term
+        return Leaf("some (%s, %s, List.zip %s %s, List.zip %s %s)" % (
+            need["t0"], need["tf"], need["history_times"], need["history"], need["times"], need["state"]))
+
+
+def _key_stmts(fn, tr, env):
+    """statements of state_at that build the symbol-cache key: returns the remaining statements"""
+    body = [s for s in fn.body if not (isinstance(s, ast.Expr) and isinstance(s.value, ast.Constant))]
+    out = []
+    for st in body:
+        tgt = None
+        if isinstance(st, ast.Assign) and len(st.targets) == 1 and isinstance(st.targets[0], ast.Name) \
+                and isinstance(st.value, ast.Call) and isinstance(st.value.func, ast.Attribute) and st.value.func.attr == "format":
+            tgt = st.targets[0].id
+            names = {n.id for n in ast.walk(st.value) if isinstance(n, ast.Name)}
+            env[tgt] = V("key", None, names=names)
+            continue
+        if isinstance(st, ast.If) and not st.orelse and len(st.body) == 1 and isinstance(st.body[0], ast.AugAssign) \
+                and isinstance(st.body[0].target, ast.Name) and env.get(st.body[0].target.id) is not None \
+                and env[st.body[0].target.id].kind == "key" and isinstance(st.body[0].value, ast.Constant) \
+                and isinstance(st.body[0].value.value, str) and st.body[0].value.value != "":
+            k = env[st.body[0].target.id]
+            names = {n.id for n in ast.walk(st.test) if isinstance(n, ast.Name)}
+            if len(names) != 1 or _dump(st.test) not in names:
+                raise TranslationError("symbol-cache key suffix under a compound condition: `%s`" % _dump(st.test))
+            k.kw["names"] = k.kw["names"] | names
+            continue
+        out.append(st)
+    return out
+
+
+def translate_state_at(tree):
+    fn = _find_method(tree, CLS, "state_at")
+    sargs = [a.arg for a in fn.args.args]
+    if sargs != ["self", "variable", "t", "ensemble_member", "scaled", "extrapolate"]:
+        raise TranslationError("state_at: unexpected signature %r" % sargs)
+    tr = Paths("state_at")
+    env = {"variable": V("name", "name"), "t": V("rat", "t"), "ensemble_member": V("mark:member"),
+           "scaled": V("bool", "scaled"), "extrapolate": V("bool", "extrap")}
+    stmts = _key_stmts(fn, tr, env)
+    return _emit(tr.run(stmts, env), 1)
+
+
+def translate_prefix(tree):
+    fn = _find_method(tree, CLS, "__states_times_in")
+    args = [a.arg for a in fn.args.args]
+    if args != ["self", "variable", "t0", "tf", "ensemble_member"]:
+        raise TranslationError("__states_times_in: unexpected signature %r" % args)
+    dflt = fn.args.defaults
+    if not (len(dflt) == 3 and all(isinstance(d, ast.Constant) for d in dflt) and dflt[0].value is None and dflt[1].value is None):
+        raise TranslationError("__states_times_in: defaults of t0 / tf are not None")
+    tr = Paths("prefix")
+    env = {"variable": V("name", "name"), "ensemble_member": V("mark:member"),
+           "t0": V("optrat", "a?", var="t0"), "tf": V("optrat", "b?", var="tf")}
+    return _emit(tr.run(fn.body, env), 1)
+
+
+def translate_states_in(tree):
+    fn = _find_method(tree, CLS, "states_in")
+    args = [a.arg for a in fn.args.args]
+    if args != ["self", "variable", "t0", "tf", "ensemble_member"]:
+        raise TranslationError("states_in: unexpected signature %r" % args)
+    stmts = [s for s in fn.body if not (isinstance(s, ast.Expr) and isinstance(s.value, ast.Constant))]
+    if not (len(stmts) == 2 and isinstance(stmts[0], ast.Assign) and isinstance(stmts[0].targets[0], ast.Tuple)
+            and len(stmts[0].targets[0].elts) == 2 and all(isinstance(e, ast.Name) for e in stmts[0].targets[0].elts)
+            and isinstance(stmts[1], ast.Return) and isinstance(stmts[1].value, ast.Name)):
+        raise TranslationError("states_in: not `x, _ = self.__states_times_in(...)` / `return x`")
+    call = stmts[0].value
+    if not (isinstance(call, ast.Call) and _dump(call.func) == "self.__states_times_in"):
+        raise TranslationError("states_in does not call __states_times_in")
+    params = ["variable", "t0", "tf", "ensemble_member"]
+    given = dict(zip(params, call.args))
+    for k in call.keywords:
+        if k.arg not in params or k.arg in given:
+            raise TranslationError("states_in: argument `%s`" % k.arg)
+        given[k.arg] = k.value
+    for k in params:
+        if k not in given or not (isinstance(given[k], ast.Name) and given[k].id == k):
+            raise TranslationError("states_in passes something else than its own `%s`" % k)
+    names = [e.id for e in stmts[0].targets[0].elts]
+    which = names.index(stmts[1].value.id) if stmts[1].value.id in names else None
+    if which is None:
+        raise TranslationError("states_in returns something else than a result of __states_times_in")
+    # __states_times_in returns (x, t): checked by translate_assemble
+    return "·.2" if which == 0 else "·.1"
+
+
+def translate_extract(tree):
+    """the de-scaling statements of extract_controls / extract_states and the constant-input loop"""
+    out = {}
+
+    def loop_body(fn_name, over_pred, what):
+        fn = _find_method(tree, CLS, fn_name)
+        env0 = {}
+        for st in fn.body:
+            if isinstance(st, ast.Assign) and len(st.targets) == 1 and isinstance(st.targets[0], ast.Name):
+                d = _dump(st.value, 200)
+                if d == "self.solver_output.copy()":
+                    env0[st.targets[0].id] = "X"
+                elif d == "self.__indices[ensemble_member]":
+                    env0[st.targets[0].id] = "indices"
+                elif d == "self.constant_inputs(ensemble_member)":
+                    env0[st.targets[0].id] = "cindict"
+                elif d == "{}" and st.targets[0].id == "results":
+                    env0["results"] = "results"
+        loops = [st for st in fn.body if isinstance(st, ast.For) and over_pred(_dump(st.iter, 300))]
+        if len(loops) != 1:
+            raise TranslationError("%s: the loop over %s was not found (or is not unique)" % (fn_name, what))
+        lp = loops[0]
+        if not isinstance(lp.target, ast.Name) or lp.orelse:
+            raise TranslationError("%s: loop header not in the table" % fn_name)
+        return env0, lp
+
+    def val(node, env, var):
+        """value of an expression of the de-scaling statements: a Lean term of type List Rat / Rat"""
+        d = _dump(node, 300)
+        if isinstance(node, ast.Name) and env.get(node.id, (None,))[0] == "term":
+            return env[node.id][1]
+        if isinstance(node, ast.Subscript):
+            b, s = _dump(node.value), node.slice
+            if env.get(b) == "X" and isinstance(s, ast.Name) and env.get(s.id) == "inds":
+                return "v.xs"
+            if env.get(b) == "results" and isinstance(s, ast.Name) and s.id == var and "@result" in env:
+                return env["@result"]
+        if d == "self.variable_nominal(%s)" % var:
+            return ("nominal",)
+        if isinstance(node, ast.BinOp) and isinstance(node.op, ast.Mult):
+            a, b = val(node.left, env, var), val(node.right, env, var)
+            if a == ("nominal",) and isinstance(b, str):
+                return "(vscale v.nominal %s)" % b
+            if b == ("nominal",) and isinstance(a, str):
+                return "(vscale v.nominal %s)" % a
+        raise TranslationError("extract: expression not in the table: `%s`" % d)
+
+    def descale(fn_name, over_pred, what):
+        env, lp = loop_body(fn_name, over_pred, what)
+        var = lp.target.id
+        env = dict(env)
+
+        def block(stmts):
+            for st in stmts:
+                if isinstance(st, ast.If):
+                    d = _dump(st.test)
+                    if d == "%s in results" % var and len(st.body) == 1 and isinstance(st.body[0], ast.Continue) and not st.orelse:
+                        continue
+                    if d == "variable_size > 1":
+                        block(st.orelse)
+                        continue
+                    raise TranslationError("%s: branch not in the table: `%s`" % (fn_name, d))
+                if isinstance(st, ast.Assign) and len(st.targets) == 1:
+                    t = st.targets[0]
+                    d = _dump(st.value, 200)
+                    if isinstance(t, ast.Name) and d == "%s[%s]" % (next((k for k, v in env.items() if v == "indices"), "?"), var):
+                        env[t.id] = "inds"
+                        continue
+                    if isinstance(t, ast.Name) and d == "variable_sizes[%s]" % var:
+                        continue
+                    if isinstance(t, ast.Subscript) and env.get(_dump(t.value)) == "results" and _dump(t.slice) == var:
+                        env["@result"] = val(st.value, env, var)
+                        continue
+                    if isinstance(t, ast.Name):
+                        env[t.id] = ("term", val(st.value, env, var))
+                        continue
+                raise TranslationError("%s: statement not in the table: `%s`" % (fn_name, _dump(st)))
+
+        block(lp.body)
+        if "@result" not in env:
+            raise TranslationError("%s: no `results[%s] = ...`" % (fn_name, var))
+        return env["@result"]
+
+    out["controls"] = descale("extract_controls", lambda d: d == "self.controls", "self.controls")
+    out["states"] = descale("extract_states", lambda d: d.startswith("itertools.chain(") and "self.differentiated_states" in d
+                            and "self.algebraic_states" in d, "the states")
+    # constant inputs
+    env, lp = loop_body("extract_states", lambda d: d == "self.dae_variables['constant_inputs']", "the constant inputs")
+    var = lp.target.id
+    stmts = list(lp.body)
+    if not (len(stmts) == 2 and _dump(stmts[0]) == "%s = %s.name()" % (var, var) and isinstance(stmts[1], ast.Try)):
+        raise TranslationError("extract_states: constant-input loop body not in the table")
+    tr = stmts[1]
+    cd = next((k for k, v in env.items() if v == "cindict"), "?")
+    ok = (len(tr.body) == 1 and isinstance(tr.body[0], ast.Assign) and _dump(tr.body[0].value) == "%s[%s]" % (cd, var)
+          and len(tr.handlers) == 1 and _dump(tr.handlers[0].type) == "KeyError"
+          and all(isinstance(s, ast.Pass) for s in tr.handlers[0].body) and len(tr.orelse) == 1 and not tr.finalbody)
+    if not ok:
+        raise TranslationError("extract_states: constant-input lookup not in the table")
+    ci = tr.body[0].targets[0].id
+    st = tr.orelse[0]
+    if not (isinstance(st, ast.Assign) and isinstance(st.targets[0], ast.Subscript) and _dump(st.targets[0]) == "results[%s]" % var
+            and isinstance(st.value, ast.Call) and _dump(st.value.func) == "self.interpolate" and len(st.value.args) == 6
+            and not st.value.keywords):
+        raise TranslationError("extract_states: constant inputs are not written as `results[v] = self.interpolate(..6 args..)`")
+    a = [_dump(x, 200) for x in st.value.args]
+    if a[0] != "self.times(%s)" % var or a[1] != ci + ".times" or a[2] != ci + ".values":
+        raise TranslationError("extract_states: constant-input interpolation arguments not in the table: %s" % a[:3])
+    fills = {ci + ".values[0]": "(finFill (firstVal c.series))", ci + ".values[-1]": "(finFill (lastVal c.series))",
+             "np.nan": "nanFill"}
+    if a[3] not in fills or a[4] not in fills:
+        raise TranslationError("extract_states: constant-input fills not in the table: %s, %s" % (a[3], a[4]))
+    modes = {"self.interpolation_method(%s)" % var: "c.mode", "self.INTERPOLATION_LINEAR": "0"}
+    if a[5] not in modes:
+        raise TranslationError("extract_states: constant-input interpolation method not in the table: %s" % a[5])
+    out["cin"] = "interpArray %s c.series %s %s ts" % (modes[a[5]], fills[a[3]], fills[a[4]])
+    return out
+
+
+GEN2_TEMPLATE = """import RtcVerif.Proofs.C15Gen
+/-!
+GENERATED on every run of the C15 check by harness/translate_c15.py from `state_at`, the first half of
+`__states_times_in`, `states_in` and the de-scaling statements of `extract_controls` / `extract_states` in
+/repo/src/rtctools/optimization/collocated_integrated_optimization_problem.py
+(path-by-path symbolic execution against the second table in the translator).  Do not edit.
+-/
+set_option linter.unusedVariables false
+set_option linter.unusedSimpArgs false
+set_option linter.unreachableTactic false
+set_option linter.unusedTactic false
+namespace RtcVerif.Gen
+open RtcVerif RtcVerif.Interp RtcVerif.C15
+
+/-- `state_at(variable, t, m, scaled, extrapolate)` -/
+def stateAtGen (p : Prob) (name : String) (t : Rat) (scaled extrap : Bool) : Res :=
+%(state_at)s
+
+theorem stateAtGen_eq_model (p : Prob) (name : String) (t : Rat) (scaled extrap : Bool) :
+    stateAtGen p name t scaled extrap = C15.stateAt p name t scaled extrap := by
+  unfold stateAtGen C15.stateAt
+  generalize p.canon name = c
+  obtain ⟨cn, neg⟩ := c
+  dsimp only
+  cases hs : p.svars.lookup cn with
+  | some v =>
+    simp only [svStateAt, applySign, SVar.knots]
+    by_cases hn : v.nominal = 1 <;> by_cases ht : t < p.t0 <;> cases hh : v.hist <;>
+      cases scaled <;> cases extrap <;> cases neg <;>
+      simp [hs, hh, hn, ht, res_scale_one, res_divBy_one, res_scale_neg_one, mul_comm] <;>
+      (try (split <;> rfl)) <;> (try (intros; simp_all [res_scale_one, res_divBy_one]; done))
+  | none =>
+    cases hc : p.cins.lookup cn <;> cases hp : p.pars.lookup cn <;> cases extrap <;> cases neg <;>
+      simp [hs, hc, hp, ciStateAt, mul_comm]
+
+/-- `__states_times_in` up to the window selection: the window `(a, b)`, the history knots available
+    and the signed, unscaled state knots; `none` = the code raises -/
+def statesPrefixGen (p : Prob) (name : String) (a? b? : Option Rat) : Option (Rat × Rat × Knots × Knots) :=
+%(prefix)s
+
+theorem statesPrefixGen_eq_model (p : Prob) (name : String) (a? b? : Option Rat) :
+    (statesPrefixGen p name a? b?).bind (fun r => C15.assemble p name r.1 r.2.1 r.2.2.1 r.2.2.2)
+      = C15.statesTimesIn p name a? b? := by
+  rw [statesTimesIn_eq_assemble]
+  unfold statesPrefixGen windowHist
+  simp only [zip_dropLast_split_neg, zip_dropLast_split]
+  generalize hc : p.canon name = c
+  obtain ⟨cn, neg⟩ := c
+  dsimp only
+  cases hs : p.svars.lookup cn with
+  | none => cases a? <;> cases b? <;> simp [Prob.timesOf, hc, hs]
+  | some v =>
+    have htm : p.timesOf name = v.times := by simp [Prob.timesOf, hc, hs]
+    cases a? <;> cases b? <;> cases hh : v.hist <;> cases neg <;>
+      simp [hs, hh, htm, sgn, List.map_map, Function.comp_def] <;>
+      split <;> simp_all
+
+/-- `states_in(variable, t0, tf, m)` -/
+def statesInGen (p : Prob) (name : String) (a? b? : Option Rat) : Option (List Rat) :=
+  (C15.statesTimesIn p name a? b?).map (·.map (%(states_in)s))
+
+theorem statesInGen_eq_model (p : Prob) (name : String) (a? b? : Option Rat) :
+    statesInGen p name a? b? = C15.statesIn p name a? b? := rfl
+
+/-- `extract_controls`: the value written for a control -/
+def extractControlGen (v : SVar) : List Rat := %(x_controls)s
+/-- `extract_states`: the value written for a (scalar, collocated) state / algebraic state / path variable -/
+def extractStateGen (v : SVar) : List Rat := %(x_states)s
+/-- `extract_states`: the value written for a constant input at the time stamps `ts` of the variable -/
+def extractCinGen (c : CIn) (ts : List Rat) : Option (List XVal) := %(x_cin)s
+
+theorem extractGen_eq_model (v : SVar) (c : CIn) (ts : List Rat) :
+    extractControlGen v = v.results ∧ extractStateGen v = v.results ∧ extractCinGen c ts = C15.ciResults c ts := by
+  unfold extractControlGen extractStateGen extractCinGen SVar.results ciResults vscale
+  exact ⟨rfl, rfl, rfl⟩
+
+end RtcVerif.Gen
+"""
+
+THEOREMS2 = ["stateAtGen_eq_model", "statesPrefixGen_eq_model", "statesInGen_eq_model", "extractGen_eq_model"]
+
+
+def gen_state_at(c):
+    """(re)generate lean/RtcVerif/Gen/StateAt.lean; returns the extra obligation spec for c.prove"""
+    gdir = os.path.join(LEAN_DIR, "RtcVerif", "Gen")
+    os.makedirs(gdir, exist_ok=True)
+    path = os.path.join(gdir, "StateAt.lean")
+    what = "state_at / __states_times_in (first half) / states_in / extract_results"
+    try:
+        tree = ast.parse(open(os.path.join(REPO, SRC)).read())
+        sa = translate_state_at(tree)
+        pre = translate_prefix(tree)
+        si = translate_states_in(tree)
+        ex = translate_extract(tree)
+    except TranslationError as e:
+        c.broken.append(("translator: " + what, str(e)))
+        return []
+    except (OSError, SyntaxError) as e:
+        c.broken.append(("translator: " + what, "cannot read/parse the source: %s" % e))
+        return []
+    text = GEN2_TEMPLATE % dict(state_at=sa, prefix=pre, states_in=si, x_controls=ex["controls"], x_states=ex["states"],
+                                x_cin=ex["cin"])
+    old = open(path).read() if os.path.exists(path) else None
+    if old != text:
+        tmp = path + ".tmp%d" % os.getpid()
+        with open(tmp, "w") as f:
+            f.write(text)
+        os.replace(tmp, path)
+    return [("RtcVerif.Gen.StateAt", "RtcVerif.Gen", THEOREMS2)]
